@@ -161,4 +161,22 @@ def run(ck):
             ck.ok("U5.challenge", s.where(), "an authentication challenge on a forward-proxy request is answered with 407")
         else:
             ck.violation("U5.challenge", "U5|clientAccessCheckDone|status", s.where(), "challenge for a non-bumped, non-accelerated request built with status %s" % (v,))
-    ck.assume("which UserRequest authTryGetUser() picks (identity mixing across connections), credential caches, scheme decoders and helper replies are not analysed")
+    ck.rule("U6 Basic scheme verdicts: Auth::Basic::UserRequest::HandleReply marks the user's credentials Auth::Ok only with reply.result == Helper::Okay established "
+            "(every other helper outcome -- ERR, BH, timeout, and the Unknown delivered for a crashed helper or a non-protocol reply line -- must not authenticate)")
+    b = ck.facts(["src/auth/basic/UserRequest.cc", "src/auth/basic/User.cc"], whole=False)
+    hr = b.fn("Auth::Basic::UserRequest::HandleReply")
+    hres = b.enum_with("BrokenHelper")
+    is_cred_set = lambda name: (lambda ev: ev.get("e") == "call" and E.strip(ev["x"]).get("f", "").endswith("::credentials") and len(E.strip(ev["x"]).get("a", [])) == 1
+                                and E.key(E.strip(ev["x"])["a"][0]).split("::")[-1] == name)
+    okay = E.m_cmp("==", E.m_is_mem("Helper::Reply::result"), E.m_const(hres["Okay"]))
+    ck.require_fact("U6.ok-only-on-helper-okay", ck.flow(hr), is_cred_set("Ok"), okay, True, "credentials(Auth::Ok)",
+                    why="(a helper crash or a garbage reply line would authenticate the claimed user and cache the credentials as valid)")
+
+    ck.rule("U7 Basic credentials cache: Auth::Basic::User::updateCached, when the newly presented password differs from the cached one (strcmp != 0), resets the cached "
+            "user's state to Auth::Unchecked on every path -- also while a helper lookup for the *old* password is pending, because startHelperLookup() queues requests "
+            "for a Pending user onto the in-flight lookup assuming identical credentials")
+    uc = b.fn("Auth::Basic::User::updateCached")
+    differs = E.M(lambda t: E.strip(t).get("k") == "call" and E.strip(t).get("f") == "strcmp" and sum(1 for n in E.walk(t) if n.get("k") == "mem" and n.get("m", "").endswith("::passwd")) == 2, "strcmp(from->passwd, passwd)")
+    ck.require_response("U7.new-password-resets-state", uc, differs, True, is_cred_set("Unchecked"), "credentials(Auth::Unchecked)", term_kinds=("IfStmt",),
+                        why="(a request with a different password would inherit the verdict of the lookup in flight for the old one)")
+    ck.assume("which UserRequest authTryGetUser() picks (identity mixing across connections), credential caches, scheme decoders other than the two Basic gates of U6/U7 and out-of-order helper replies are not analysed")
